@@ -711,6 +711,11 @@ impl<'p> Evaluator<'_, 'p> {
             }
             ValueData::Number(n) => {
                 write!(result, "{n}").unwrap();
+                // TOML integers are 64-bit signed: an integral value of
+                // larger magnitude must be written as a float.
+                if n.abs() >= 9223372036854775808.0 {
+                    result.push_str(".0");
+                }
             }
             ValueData::String(s) => {
                 escape_string_toml(&s, result);
